@@ -48,6 +48,9 @@ pub enum Body {
   /// as SimpleStream, but the stream is first polled once from another context (another waker: a start-up
   /// `now_or_never`, a `select!` that lost, a task hand-over) before the consumer parks on it with its own
   SimpleStreamOtherWakerFirst,
+  /// as SimpleStream, but the first datagram carries a payload that cannot be decoded: the stream reports the
+  /// error and must still be woken for the good sample behind it
+  SimpleStreamBadThenGood,
   /// DataReaderStream (with SampleInfo) vs two DATA datagrams
   SampleStream,
   /// BareDataReaderStream vs two DATA datagrams
@@ -173,7 +176,7 @@ fn reader_body(body: Body, prefix: &[usize]) -> RunResult {
     sub, reader_eid, topic, q.clone(), notification_rx, topic_cache.clone(), disc_tx, status_rx, command_tx, waker, event_source,
   )
   .unwrap();
-  let expected: usize = 2;
+  let expected: usize = if body == Body::SimpleStreamBadThenGood { 1 } else { 2 };
   let sched = Sched::new(2);
   let got = Arc::new(AtomicUsize::new(0));
   let parks = Arc::new(AtomicUsize::new(0));
@@ -190,7 +193,7 @@ fn reader_body(body: Body, prefix: &[usize]) -> RunResult {
       fw.0.store(false, Ordering::SeqCst);
     };
     match body {
-      Body::SimpleStream | Body::SimpleStreamOtherWakerFirst => {
+      Body::SimpleStream | Body::SimpleStreamOtherWakerFirst | Body::SimpleStreamBadThenGood => {
         {
           let mut stream = sdr.as_async_stream();
           if body == Body::SimpleStreamOtherWakerFirst {
@@ -212,6 +215,8 @@ fn reader_body(body: Body, prefix: &[usize]) -> RunResult {
                 g.fetch_add(1, Ordering::SeqCst);
                 sched::point("APP.got_one");
               }
+              // the undecodable change is reported (once); the consumer goes on
+              Poll::Ready(Some(Err(_))) if body == Body::SimpleStreamBadThenGood => sched::point("APP.got_error"),
               Poll::Ready(_) => panic!("MACHINERY unexpected stream result"),
               Poll::Pending => park(&fw),
             }
@@ -331,6 +336,7 @@ fn reader_body(body: Body, prefix: &[usize]) -> RunResult {
     let data = |sn: i64| wire::data_msg(&wire::cc_data(wg, sn, Msg::new(1, sn as u32, 0).cdr()), rid, None);
     let datagrams: Vec<Vec<u8>> = match body {
       Body::Mio06 | Body::Mio08 | Body::Mio06SecondReader => vec![data(1), data(3), wire::gap_msg(wg, rid, 2, 3, &[])],
+      Body::SimpleStreamBadThenGood => vec![wire::data_msg(&wire::cc_data(wg, 1, vec![1, 2]), rid, None), data(2)],
       _ => vec![data(1), data(2)],
     };
     for d in datagrams {
